@@ -49,6 +49,7 @@ SPEC = dict(
               "read-fonts/src/tables/glyf.rs: SimpleGlyph::{num_points, read_points_fast, points/points_impl}, PointIter::{next, advance_flags, advance_points}, resolve_coords_len",
               "read-fonts/src/tables/variations.rs: PackedPointNumbers::{count, count_and_count_bytes, total_len, split_off_front, iter}, PackedPointNumbersIter/PointRunIter::next, read_control_byte, PackedDeltas::{consume_all, iter}, count_all_deltas, DeltaRunIter::next, DeltaRunType::new",
               "read-fonts/src/tables/cmap.rs: Cmap12::{group, lookup_glyph_id, iter, iter_with_limits}, Cmap12Iter::next; generated Cmap12::read + groups()",
+              "read-fonts/src/tables/postscript/dict.rs: parse_bcd (digit buffer index arithmetic, nibble decoding, f64 syntax acceptance; the Fixed value is not modelled), tied through dict::tokens",
               "read-fonts/generated/generated_postscript.rs Index1/Index2::read + getters; src/tables/postscript/index.rs read_offset, get_offset, get",
               "read-fonts/src/tables/loca.rs Loca::{read, len, get_raw}; src/array.rs VarLenArray::{get, iter}, ComputedArray::{new, get, iter}; read.rs VarSize::read_len_at; post.rs PString::read; avar.rs SegmentMaps::{read, read_len_at}; gvar.rs U16Or32"],
     not_covered=["generated table layouts (read + *_byte_range + getters of ~250 tables): part 2, coq/C01/Layout*.v (other builder); here only exercised by the traversal search",
